@@ -19,10 +19,13 @@ tvars == <<vars, tid, l, bad, exc>>
 T == Traces[tid].events
 E == T[l]
 
-ConfOf(c) == [hc |-> [h \in H |-> [reasons |-> Range(c.hc[h].reasons), optional |-> c.hc[h].optional,
-                                    deleted |-> c.hc[h].deleted, retries |-> c.hc[h].retries, mode |-> c.hc[h].mode,
-                                    backoff |-> c.hc[h].backoff]],
-              order |-> c.order, lifecycle |-> c.lifecycle, ctimeout |-> c.ctimeout]
+HcOf(c) == [h \in H |-> [reasons |-> Range(c.hc[h].reasons), optional |-> c.hc[h].optional,
+                          deleted |-> c.hc[h].deleted, retries |-> c.hc[h].retries, mode |-> c.hc[h].mode,
+                          backoff |-> c.hc[h].backoff]]
+ConfOf(c) == IF "dh" \in DOMAIN c
+             THEN [hc |-> HcOf(c), order |-> c.order, lifecycle |-> c.lifecycle, ctimeout |-> c.ctimeout,
+                   dh |-> c.dh, polling |-> c.polling, exitto |-> c.exitto]
+             ELSE [hc |-> HcOf(c), order |-> c.order, lifecycle |-> c.lifecycle, ctimeout |-> c.ctimeout]
 TInit ==
   /\ tid \in 1..Len(Traces) /\ l = 1 /\ bad = "none" /\ exc = "none"
   /\ conf = ConfOf(Traces[tid].conf)
@@ -37,7 +40,8 @@ TInit ==
   /\ gh = [succ |-> [h \in H |-> 0], seen |-> [h \in H |-> 0], deldone |-> {}, early |-> FALSE,
            touched |-> FALSE, resumed |-> [h \in H |-> 0], badinv |-> "none", foreignlost |-> FALSE,
            reverted |-> FALSE, leftunmatched |-> FALSE, staleview |-> FALSE,
-           ownrv |-> 0, owntime |-> 0, blindwrite |-> FALSE, cseen |-> [h \in H |-> 0], f8 |-> FALSE]
+           ownrv |-> 0, owntime |-> 0, blindwrite |-> FALSE, cseen |-> [h \in H |-> 0], f8 |-> FALSE,
+           killer |-> FALSE, exiting |-> FALSE, stopat |-> 0, orph |-> FALSE, rematch |-> {}]
 
 Ev(e) == l <= Len(T) /\ E.ev = e /\ E.t = now /\ l' = l + 1 /\ UNCHANGED tid
 Keep == UNCHANGED <<tid, l>>
@@ -69,24 +73,37 @@ TStop    == Ev("stop") /\ Stop
 TDown    == Ev("down") /\ IF up THEN Down ELSE UNCHANGED <<obj, chan, bl, up, stopping, mem, wk, pc, cyc, now, bud, gh>>
 TList    == Ev("list") /\ (IF up THEN Relist ELSE Start)
             /\ (IF E.rv = 0 THEN ~obj.exists ELSE obj.exists /\ obj.rv = E.rv)
+\* daemons and timers beside the change handlers (events of instances the model has lost sight of - forgotten with a vanished
+\* object, family F5 - or of a process that is gone are let through)
+Same == UNCHANGED <<obj, chan, bl, up, stopping, mem, wk, pc, cyc, now, bud, gh>>
+Known(h) == up /\ h \in DHs /\ mem.run[h].on
+Lost == ~up \/ gh.orph
+SweepCancel(h) == /\ up /\ gh.exiting /\ gh.killer /\ Alive(h) /\ ~DH[h].sync
+                  /\ SetRun(h, [mem.run[h] EXCEPT !.cdel = TRUE]) /\ DOnly
+TExiting == Ev("exiting") /\ IF up THEN ExitBegin ELSE Same     \* (a process stopped before it had listed anything is not a process of the model)
+TEnter   == Ev("enter") /\ IF Known(E.h) /\ ~mem.run[E.h].started THEN DEnter(E.h) ELSE Lost /\ Same
+TSeen    == Ev("flagseen") /\ IF Known(E.h) /\ Alive(E.h) THEN DSeeFlag(E.h) ELSE Lost /\ Same
+TCancel  == Ev("cancel") /\ IF Known(E.h) /\ Alive(E.h) THEN (IF mem.run[E.h].creq THEN DCancelled(E.h) ELSE SweepCancel(E.h)) ELSE Lost /\ Same
+TExit    == Ev("exit") /\ IF Known(E.h) /\ Alive(E.h) THEN DExit(E.h) ELSE Lost /\ Same
 TQuiet   == Ev("quiet") /\ ~ENABLED Urgent /\ (up => chan = <<>> /\ bl = <<>>)
             /\ UNCHANGED <<obj, chan, bl, up, stopping, mem, wk, pc, cyc, now, bud, gh>>
 
-Silent == (CWaitWoken \/ CWaitTimeout \/ ProcFinish \/ Reply1 \/ SleepWake \/ SleepExpire) /\ Keep
+Silent == (CWaitWoken \/ CWaitTimeout \/ ProcFinish \/ Reply1 \/ SleepWake \/ SleepExpire
+           \/ (\E h \in DHs : StopSet(h) \/ Stage(h) \/ StageC(h) \/ KCancel(h) \/ KDrop(h) \/ REnd(h)) \/ Decide \/ KillerExit \/ WorkerAbort) /\ Keep
 Advance == /\ l <= Len(T) /\ E.t > now /\ ~ENABLED Urgent
            /\ now' = now + 1          \* second by second: a deadline in between may not be jumped over
            /\ UNCHANGED <<obj, chan, bl, up, stopping, mem, wk, pc, cyc, bud, gh, conf, tid, l>>
 
 AllInv == InvokeGoverned /\ InvokeCauseOk /\ CloseExactlyWhenDone /\ NeverEarly /\ ForeignUntouched /\ ResumeOnce
-          /\ FreshOrTimedOut /\ RetriesBounded /\ Stealth
+          /\ FreshOrTimedOut /\ RetriesBounded /\ Stealth /\ DaemonStages
 FirstBad == IF ~InvokeGoverned THEN "InvokeGoverned" ELSE IF ~InvokeCauseOk THEN "InvokeCauseOk"
             ELSE IF ~CloseExactlyWhenDone THEN "CloseExactlyWhenDone" ELSE IF ~NeverEarly THEN "NeverEarly"
             ELSE IF ~ForeignUntouched THEN "ForeignUntouched" ELSE IF ~ResumeOnce THEN "ResumeOnce"
             ELSE IF ~FreshOrTimedOut THEN "FreshOrTimedOut" ELSE IF ~RetriesBounded THEN "RetriesBounded"
-            ELSE IF ~Stealth THEN "Stealth" ELSE "none"
+            ELSE IF ~Stealth THEN "Stealth" ELSE IF ~DaemonStages THEN "DaemonStages" ELSE "none"
 
 TStep == TEdit \/ TDelete \/ TFin \/ TDeliver \/ TBegin \/ TInv \/ TMerge \/ TJson \/ TEnd \/ TKill \/ TStop \/ TDown
-         \/ TList \/ TQuiet \/ Silent \/ Advance
+         \/ TList \/ TQuiet \/ TExiting \/ TEnter \/ TSeen \/ TCancel \/ TExit \/ Silent \/ Advance
 \* which known family excuses a final state that is not converged (reported as KNOWN-FINDING by the runner)
 Excuse == IF ~up \/ stopping \/ pc \in {"sleep", "cwait"} THEN "none"
           ELSE IF Converged THEN (IF Family_F8 THEN "F8" ELSE "none")
